@@ -466,7 +466,7 @@ impl Srv {
                 Err(e) => err_json(&e),
             },
             "get_me" => match c.get_me().await {
-                Ok(m) => json!({"r": "ok", "uid": m.user_id, "groups": m.consumer_groups_count}),
+                Ok(m) => json!({"r": "ok", "uid": m.user_id, "client_id": m.client_id, "groups": m.consumer_groups_count}),
                 Err(e) => err_json(&e),
             },
             "get_clients" => match c.get_clients().await {
